@@ -55,6 +55,17 @@ func main() {
 				return r.Run(&b)
 			}
 		})
+	case "paths":
+		simple(os.Args[2:], func(w *env.World, out *bufio.Writer) func([]byte) error {
+			r := &drive.PathRunner{W: w, Out: out}
+			return func(line []byte) error {
+				var u drive.PathUniverse
+				if err := json.Unmarshal(line, &u); err != nil {
+					return err
+				}
+				return r.Run(&u)
+			}
+		})
 	case "netconf":
 		simple(os.Args[2:], func(w *env.World, out *bufio.Writer) func([]byte) error {
 			r := &drive.NCRunner{W: w, Out: out}
